@@ -513,7 +513,7 @@ CanonFac(m, renorm, P, Pn) == IF renorm THEN <<1, 1>> ELSE IF m = "raw" THEN <<T
 CanonMode(m, Rr) == IF m \in {"raw", "unit"} /\ (m = "raw" => Outer2(Rr) = 1) THEN "unit" ELSE "unitnn"
 Canonical(renorm) ==
     /\ phase = "live" /\ R.known /\ ~Inf(R) /\ NL(R) >= 2
-    /\ AbsLE(psi, 40)
+    /\ AbsLE(psi, 150)
     /\ last' = [op |-> "canonical_form", renormalize |-> renorm]
     /\ R' = NoRep /\ mode' = CanonMode(mode, R) /\ phase' = "done"
     /\ UNCHANGED <<psi, nrm, nops>>
